@@ -129,13 +129,15 @@ def check_spellings(ctx, case):
         elif before != after:
             ctx.fail('input-Mol-object-modified', '[%s] %s of %r changed from %s to %s by GetDescriptors' % (L, kind, smi, before, after))
     # identical descriptors => identical estimates (sampled)
-    if base[0] == 'ok' and case['seed'] % 4 == 0:
+    if base[0] == 'ok' and case['seed'] % 2 == 0:
         m = _pg()
         try:
             with warnings.catch_warnings():
                 warnings.simplefilter('ignore')
                 vals = []
-                for kind, inp in [sp[0]] + [x for x in inputs if isinstance(x[1], str)][:2]:
+                strs = [x for x in inputs if isinstance(x[1], str)]
+                # one re-ordered spelling, and the ones that write hydrogens differently (bracket atoms with H counts, H atoms)
+                for kind, inp in [sp[0]] + strs[:1] + [x for x in strs[1:] if x[0] in ('explicit-H', 'bracket-H', 'kekule')][:3]:
                     d = lib.GetDescriptors(inp)
                     e = lib.Estimate(d, 'thermochem')
                     vals.append((e.get_HoRT(298.15), e.get_GoRT(298.15, S_elements=True) if e.get_range() is None or e.get_range()[0] <= 298.15 else 0))
